@@ -240,3 +240,9 @@ func genC07(rt *rapid.T) Case {
 func TestC07Pacemaker(t *testing.T) {
 	common.Check(t, "C07", "TestC07Pacemaker", 8000, 160000, genC07, c07Prop)
 }
+
+// TestC07PacemakerCatchUp: the catch-up shape (a lagging replica alone with a Byzantine leader that hands out only the newest blocks, then the
+// network heals; see genC06CatchUp) under this property's oracle.
+func TestC07PacemakerCatchUp(t *testing.T) {
+	common.Check(t, "C07", "TestC07PacemakerCatchUp", 1200, 30000, genC06CatchUp, c07Prop)
+}
